@@ -386,7 +386,7 @@ def gen(args) -> list:
                     comps["hours"] = 24 * dd
                 else:
                     comps["weeks"], comps["days"] = dd // 7 if dd > 0 else -((-dd) // 7), (dd % 7 if dd > 0 else -((-dd) % 7))
-                comps[rnd.choice(["nanoseconds", "ticks"])] = rnd.choice([-1, 1, -3, 3, -300, 300, rnd.randint(-999, 999)])
+                comps[rnd.choice(["nanoseconds", "ticks"])] = rnd.choice([0, 0, 0, -1, 1, -3, 3, -300, 300, rnd.randint(-999, 999)])    # (or exactly)
             if rnd.random() < 0.5:
                 comps["years"] = comps["months"] = 0
             p = Period.zero
